@@ -11,6 +11,9 @@
 (*   5. recomputes the chain in order (each update function may raise),     *)
 (*   6. pairs twins, 7. swaps every previous value back.                    *)
 (* set_updated_values / reset_values swap the two parallel lists.           *)
+(* An UNDATED update (an ordinary edit) runs steps 3-5 only and leaves the  *)
+(* new values installed; since the repair of the roll-back (93c3c70) a      *)
+(* failure at any step undoes everything, like a failed simulation.         *)
 (* Small fixed shape: input in1; outside ancestors a1 (hourly) and a2;      *)
 (* recomputed r1 (reads in1, a1) and r2 (reads r1, a2).                     *)
 (***************************************************************************)
@@ -27,15 +30,16 @@ VARIABLES tok,       \* slot -> token currently in the slot
           chld,      \* token -> set of tokens registered as children
           next,      \* next fresh token
           sim,       \* [prev, new : Seq(token), slots : Seq(slot), set, exists : BOOLEAN]
+          base,      \* the baseline: [tok : slot -> token, chld : token -> children] as left by the last accepted edit
           out        \* outcome of the last action
-vars == <<tok, anc, chld, next, sim, out>>
+vars == <<tok, anc, chld, next, sim, base, out>>
 
 Tok0 == [s \in Slots |-> CASE s = "in1" -> 1 [] s = "a1" -> 2 [] s = "a2" -> 3 [] s = "r1" -> 4 [] s = "r2" -> 5]
 Anc0 == [t \in 1..5 |-> CASE t = 4 -> {1, 2} [] t = 5 -> {4, 3} [] OTHER -> {}]
 Chld0 == [t \in 1..5 |-> {c \in 1..5 : t \in Anc0[c]}]
 
 NoSim == [prev |-> <<>>, new |-> <<>>, slots |-> <<>>, set |-> FALSE, exists |-> FALSE]
-Init == tok = Tok0 /\ anc = Anc0 /\ chld = Chld0 /\ next = 6 /\ sim = NoSim /\ out = "init"
+Init == tok = Tok0 /\ anc = Anc0 /\ chld = Chld0 /\ next = 6 /\ sim = NoSim /\ base = [tok |-> Tok0, chld |-> Chld0] /\ out = "init"
 
 (* world W = [tok, anc, chld, next]; replacing the content of a slot detaches the old token (it unregisters  *)
 (* from its ancestors' children) and attaches the new one (it registers)                                      *)
@@ -54,36 +58,49 @@ World == [tok |-> tok, anc |-> anc, chld |-> chld, next |-> next]
 (* one step of the creation sequence: replace slot s by a fresh token *)
 Replace(W, s, ancestors) == LET W1 == Fresh(W, ancestors) IN Put(W1, s, W.next)
 
-Steps == IF Structural THEN <<"a1", "a2", "in1", "check", "r1", "r2">> ELSE <<"a1", "in1", "check", "r1", "r2">>
+SimSteps == IF Structural THEN <<"a1", "a2", "in1", "check", "r1", "r2">> ELSE <<"a1", "in1", "check", "r1", "r2">>
+PlainSteps == <<"in1", "check", "r1", "r2">>
 
 RECURSIVE Run(_, _, _, _, _)
 (* executes Steps[i..]; failAt = 0 never fails; returns [W, prev, new, slots, failed] *)
-Run(W, i, failAt, acc, dummy) ==
+Run(W, i, failAt, acc, Steps) ==
     IF i > Len(Steps) THEN [W |-> W, prev |-> acc.prev, new |-> acc.new, slots |-> acc.slots, failed |-> FALSE]
     ELSE IF i = failAt THEN [W |-> W, prev |-> acc.prev, new |-> acc.new, slots |-> acc.slots, failed |-> TRUE]
     ELSE LET s == Steps[i] IN
-         IF s = "check" THEN Run(W, i + 1, failAt, acc, dummy)
+         IF s = "check" THEN Run(W, i + 1, failAt, acc, Steps)
          ELSE LET ancestors == IF s \in {"r1", "r2"} THEN {W.tok[x] : x \in ReadsOf(s)}
                                ELSE W.anc[W.tok[s]]          \* a copy / truncated copy / new input keeps no new parents
                   W2 == Replace(W, s, IF s \in {"a1", "a2", "in1"} THEN {} ELSE ancestors)
               IN  Run(W2, i + 1, failAt, [prev |-> Append(acc.prev, W.tok[s]), new |-> Append(acc.new, W.next),
-                                          slots |-> Append(acc.slots, s)], dummy)
+                                          slots |-> Append(acc.slots, s)], Steps)
 
 RECURSIVE Swap(_, _, _, _)
 Swap(W, slots, toks, i) == IF i > Len(slots) THEN W ELSE Swap(Put(W, slots[i], toks[i]), slots, toks, i + 1)
 RECURSIVE SwapBack(_, _, _, _)
 SwapBack(W, slots, toks, i) == IF i < 1 THEN W ELSE SwapBack(Put(W, slots[i], toks[i]), slots, toks, i - 1)
 
-Install(W, s, o) == tok' = W.tok /\ anc' = W.anc /\ chld' = W.chld /\ next' = W.next /\ sim' = s /\ out' = o
+Install(W, s, o) == tok' = W.tok /\ anc' = W.anc /\ chld' = W.chld /\ next' = W.next /\ sim' = s /\ out' = o /\ UNCHANGED base
+Installed(W) == {W.tok[s] : s \in Slots}
 
 Create(failAt) ==
     /\ ~sim.set
     /\ next < 40
-    /\ LET r == Run(World, 1, failAt, [prev |-> <<>>, new |-> <<>>, slots |-> <<>>], 0) IN
+    /\ LET r == Run(World, 1, failAt, [prev |-> <<>>, new |-> <<>>, slots |-> <<>>], SimSteps) IN
        IF r.failed
        THEN IF RestoreOnFailure THEN Install(SwapBack(r.W, r.slots, r.prev, Len(r.slots)), sim, "raised")
             ELSE Install(r.W, sim, "raised")
        ELSE Install(Swap(r.W, r.slots, r.prev, 1), [prev |-> r.prev, new |-> r.new, slots |-> r.slots, set |-> FALSE, exists |-> TRUE], "created")
+
+(* an ordinary (undated) edit of in1: the new values stay; a simulation created on the previous baseline is forgotten *)
+Update(failAt) ==
+    /\ ~sim.set
+    /\ next < 40
+    /\ LET r == Run(World, 1, failAt, [prev |-> <<>>, new |-> <<>>, slots |-> <<>>], PlainSteps) IN
+       IF r.failed
+       THEN IF RestoreOnFailure THEN Install(SwapBack(r.W, r.slots, r.prev, Len(r.slots)), sim, "update-raised")
+            ELSE Install(r.W, sim, "update-raised")
+       ELSE /\ tok' = r.W.tok /\ anc' = r.W.anc /\ chld' = r.W.chld /\ next' = r.W.next /\ sim' = NoSim /\ out' = "updated"
+            /\ base' = [tok |-> r.W.tok, chld |-> [t \in Installed(r.W) |-> r.W.chld[t]]]
 
 SetValues ==
     /\ sim.exists
@@ -94,17 +111,26 @@ ResetValues ==
     /\ IF ~sim.set THEN UNCHANGED vars
        ELSE Install(Swap(World, sim.slots, sim.prev, 1), [sim EXCEPT !.set = FALSE], "reset")
 
-Next == (\E f \in 0..Len(Steps) : Create(f)) \/ SetValues \/ ResetValues
+Next == (\E f \in 0..Len(SimSteps) : Create(f)) \/ (\E f \in 0..Len(PlainSteps) : Update(f)) \/ SetValues \/ ResetValues
 Spec == Init /\ [][Next]_vars
 
 (******************************* properties ********************************)
 BaselineMode == ~sim.set
 (* the very same value objects, and the same dependency graph among them *)
 BaselineIntact ==
-    BaselineMode => /\ tok = Tok0
-                    /\ \A t \in 1..5 : chld[t] = Chld0[t]
+    BaselineMode => /\ tok = base.tok
+                    /\ \A t \in DOMAIN base.chld : chld[t] = base.chld[t]
+(* the graph among the installed values is closed and listed on both ends: no installed value keeps a superseded ancestor *)
+GraphClosed ==
+    BaselineMode => LET live == {tok[s] : s \in Slots} IN
+                    /\ \A t \in live : anc[t] \subseteq live
+                    /\ \A t \in live : chld[t] = {c \in live : t \in anc[c]}
+(* an update or a simulation that raises changes nothing observable *)
+AllOrNothing ==
+    [][out' \in {"raised", "update-raised"} => (tok' = tok /\ \A s \in Slots : chld'[tok[s]] = chld[tok[s]])]_vars
 TwinsPaired == sim.exists => Len(sim.prev) = Len(sim.new) /\ Len(sim.new) = Len(sim.slots)
 SimulatedValuesInstalled == sim.set => \A i \in DOMAIN sim.slots : tok[sim.slots[i]] = sim.new[i]
 (* garbage tokens grow without bound: only what is observable identifies a state *)
-View == <<tok, [t \in 1..5 |-> chld[t]], <<sim.exists, sim.set, sim.slots>>, out>>
+(* (a renaming of tokens would make the state space finite; instead the number of fresh tokens is bounded: next < 40) *)
+View == <<tok, [s \in Slots |-> chld[tok[s]]], base, <<sim.exists, sim.set, sim.slots, sim.prev, sim.new>>, out>>
 =============================================================================
